@@ -109,7 +109,7 @@ class C20(Property):
             'brace (templates), >= 1 accessor (names); distinct by case hash')
 
     def budget(self, tier):
-        return 30000 if tier == 'quick' else 1000000
+        return 100000 if tier == 'quick' else 1000000
 
     def explicit_cases(self, ctx):
         n = 5 if ctx.tier == 'quick' else 7
